@@ -289,12 +289,33 @@ func create(p *proc, parts, repl int) string {
 	defer cancel()
 	d, err := pb.NewDatasetManagerClient(p.conn).Create(ctx, &pb.Dataset{Dimension: 3, Space: pb.Space_Euclidean, PartitionCount: uint32(parts), ReplicationFactor: uint32(repl)})
 	if err != nil {
-		emit(event{"ev": "create", "via": p.id, "ok": 0, "id": "", "err": err.Error()})
+		emit(event{"ev": "create", "via": p.id, "ok": 0, "id": "", "err": err.Error(), "parts": []string{}})
 		return ""
 	}
 	id, _ := uuid.FromBytes(d.GetId())
-	emit(event{"ev": "create", "via": p.id, "ok": 1, "id": id.String(), "err": ""})
+	pids := []string{}
+	for _, pt := range d.GetPartitions() {
+		pid, _ := uuid.FromBytes(pt.GetId())
+		pids = append(pids, pid.String())
+	}
+	emit(event{"ev": "create", "via": p.id, "ok": 1, "id": id.String(), "err": "", "parts": pids})
 	return id.String()
+}
+
+// get reads one dataset descriptor through the DatasetManager.Get RPC (a read: nothing may change)
+func get(p *proc, id string) {
+	if id == "" {
+		return
+	}
+	u, _ := uuid.FromString(id)
+	ctx, cancel := context.WithTimeout(context.Background(), 3*time.Second)
+	defer cancel()
+	_, err := pb.NewDatasetManagerClient(p.conn).Get(ctx, &pb.GetDatasetRequest{DatasetId: u.Bytes()})
+	es := ""
+	if err != nil {
+		es = err.Error()
+	}
+	emit(event{"ev": "get", "via": p.id, "id": id, "err": es})
 }
 
 func del(p *proc, id string) {
@@ -364,6 +385,12 @@ func main() {
 		a.start("VERIF_SETUP_DELAY_MS=400")
 		observe(ps, "restart")
 	case "snapshot":
+		// descriptors are read on one node before the logs are compacted: reading must not change
+		// what is snapshotted (the partition list's order is what routing indexes into)
+		d0 := create(b, 5, 1)
+		observe(ps, "create")
+		get(a, d0)
+		get(a, d2)
 		for _, p := range ps {
 			if p.checkAlive() {
 				p.cmd.Process.Signal(syscall.SIGUSR1)
